@@ -10,6 +10,9 @@
                  VERIF_REPO and requires each to be reported (exit 1) by the
                  quick check of its property
 
+  findings       replays of the repaired defects: must fail on the tree just
+                 before each repair and hold on the current tree
+
 Nothing here writes under /verif/evidence or /verif/replays.
 """
 import json
@@ -293,6 +296,19 @@ MUTANTS = [
        "    return self._terms[n]\n"),
       (DIAG, "    sigma = np.std(self.y, ddof=2) * np.sqrt(1 - corr ** 2)\n",
        "    sigma = np.sqrt(1 - corr ** 2)\n")]),
+    ('c08_reset_skipped_when_sum_unchanged', 'C08',
+     [(DIAG, "    self._x = x\n    self._corr = None\n",
+       "    if (x is not None and self._x is not None and\n"
+       "        np.isclose(x.sum(), self._x.sum())):\n"
+       "      self._x = x\n      return\n"
+       "    self._x = x\n    self._corr = None\n")]),
+    ('c08_impact_term_cached_by_length_ignores_parameters', 'C08',
+     [(DIAG, "    term = self._impact_estimate(par.n_test,\n",
+       "    term = self._term_cache.setdefault(n, self._impact_estimate(par.n_test,\n"),
+      (DIAG, "                                 par.power_level)\n    sigma = ",
+       "                                 par.power_level))\n    sigma = "),
+      (DIAG, "  _x_mean = None  # Mean of x.\n",
+       "  _x_mean = None  # Mean of x.\n  _term_cache = {}\n")]),
     ('c14_search_results_ascending_when_many', 'C14',
      [(MM, "    return output_result\n",
        "    if len(output_result) > 2:\n      output_result[-1], "
@@ -384,6 +400,39 @@ def sensitivity(only=None, width=3, scale='1'):
   return len(missed)
 
 
+def findings():
+  """Every repaired defect: its replay must FAIL on the tree just before the
+  repair and HOLD on the current tree (a `fixed` entry suppresses nothing)."""
+  base = tempfile.mkdtemp(prefix='mm_scratch.')
+  bad = 0
+  try:
+    for f in core.load_known_findings():
+      if f.get('status') != 'fixed':
+        continue
+      replay = os.path.join(core.VERIF_DIR, f['replay'])
+      root = os.path.join(base, f['commit'])
+      os.makedirs(root)
+      subprocess.run('git -C %s archive %s^ matched_markets | tar -x -C %s' % (
+          core.repo_root(), f['commit'], root), shell=True, check=True)
+      before = subprocess.run([PY, CLI, '--replay', replay],
+                              cwd=core.VERIF_DIR, capture_output=True,
+                              text=True, env=dict(os.environ, VERIF_REPO=root))
+      now = subprocess.run([PY, CLI, '--replay', replay], cwd=core.VERIF_DIR,
+                           capture_output=True, text=True)
+      ok = (before.returncode == 1 and 'VIOLATION property=%s' % f['property']
+            in before.stdout and now.returncode == 0 and 'HELD' in now.stdout)
+      print('%s %s: before the repair exit=%d, now exit=%d -> %s' % (
+          f['property'], f['commit'], before.returncode, now.returncode,
+          'ok' if ok else 'UNEXPECTED'))
+      if not ok:
+        bad += 1
+        print(before.stdout[-600:], now.stdout[-600:])
+      shutil.rmtree(root, ignore_errors=True)
+  finally:
+    shutil.rmtree(base, ignore_errors=True)
+  return bad
+
+
 def main(argv):
   mode = argv[1] if len(argv) > 1 else 'smoke'
   if mode == 'smoke':
@@ -394,6 +443,8 @@ def main(argv):
                       seed=int(os.environ.get('VERIF_SEED') or 0))
   elif mode == 'sensitivity':
     bad = sensitivity(only=argv[2:])
+  elif mode == 'findings':
+    bad = findings()
   else:
     raise SystemExit('usage: selftest.py smoke|determinism [n]|sensitivity '
                      '[name-substring ...]')
